@@ -693,8 +693,11 @@ Definition estep_ok (n : nat) (p : pst) (s : N * (N * (N * N))) (rc : N) (la lb 
         (* the end of a connection is noticed at both ends *)
         (if bup1 then Bool.eqb appa appb else negb appa) &&
         (* the exit of one protocol, or a substream for it, closes nothing while another protocol
-           of the node is still there *)
-        (if ((op =? 10) || (op =? 12) || (op =? 13) || (op =? 14)) && existsb (fun x => x) actor_al1
+           of the node is still there. Step 14 also makes a NEW connection: if the other node has no
+           protocol left, nobody there keeps it open and it is announced and closed at once (the clause
+           "a new connection is announced" below says so); that closing is not caused by the exit *)
+        (if ((op =? 10) || (op =? 12) || (op =? 13) || (op =? 14)) && existsb (fun x => x) actor_al1 &&
+            (negb (op =? 14) || existsb (fun x => x) (if a =? 0 then snd al1 else fst al1))
          then no_closed la && no_closed lb else true) &&
         (* a new connection is announced on both sides *)
         (if ((op =? 11) || (op =? 14)) && p_bup p && negb appa0 && negb appb0
